@@ -825,6 +825,31 @@ def rule_drop_empty(repo, col):
                     b, c = const_str(v.body), const_str(v.orelse)
                     flips.append((n, {a, b} == {'sample', 'observation'} and
                                   c == a))
+        if not flips:
+            # an emptiness filter that still runs on the requested axis?
+            hit = None
+            reassigned = any(isinstance(n, ast.Assign) and
+                             dotted(n.targets[0]) == 'axis'
+                             for n in body_walk(f))
+            for n in body_walk(f):
+                if isinstance(n, ast.Call) and isinstance(
+                        n.func, ast.Attribute) and n.func.attr == 'filter' \
+                        and n.args and dotted(n.args[0]) in nested and \
+                        _any_value_predicate(nested[dotted(n.args[0])]) \
+                        is not None and \
+                        dotted(kwarg(n, 'axis') or ast.Constant(None)) == \
+                        'axis':
+                    hit = n
+            if hit is not None and not reassigned:
+                col.bad('AX-IDAPI', rel, q, 'invert-axis', hit,
+                        'the empty-vector filter runs on the requested axis '
+                        'itself: the axis is never inverted, so the other '
+                        'axis keeps its all-zero vectors and selected ids '
+                        'that are empty are dropped')
+            else:
+                col.unknown('AX-IDAPI', rel, q, 'invert-axis', f,
+                            'axis inversion idiom not recognised')
+            continue
         if len(flips) != 1:
             col.unknown('AX-IDAPI', rel, q, 'invert-axis', f,
                         'axis inversion idiom not recognised')
